@@ -94,7 +94,8 @@ func implStringD(v interface{}, depth int) string {
 
 var sessNames = []string{"x", "y", "s", "flag", "o", "u"}
 var sessLocals = []string{"$a", "$b", "$c", "$"} // "$" alone is a $-prefixed name too
-var sessKeys = []string{"k1", "k2", "x", "$a", "user", "user.name", "v1.2", ""}
+var sessKeysBase = []string{"k1", "k2", "x", "$a", "user", "user.name", "v1.2", ""}
+var sessKeys = sessKeysBase // per run: in a quarter of the runs 4-60 further keys (drawNames)
 var sessStrings = []string{"a", "b", "ab", "k1", "", "zz", "a b", " ", "héllo", "小明", "true", "null", "$a", "x", "A"}
 var sessStubs = []string{"rec", "put", "get", "fail", "pair", "cat", "poke", "inc", "evk"}
 
@@ -415,6 +416,12 @@ func (g *mgen) leaf(want int) (*MNode, MV) {
 	if want == wAny {
 		switch g.s.Intn(8) {
 		case 7: // a 43-digit integer: more than any fixed-precision context keeps
+			if g.s.Bool(1, 2) {
+				// numbers that differ only in their trailing zeros: equal under Cmp, not the same value
+				// (a store that is skipped "because nothing changes" keeps the old number of decimals)
+				v := MV{K: mkDec, S: []string{"1.10", "1.1", "1.100", "2.50", "2.5", "0.50", "0.5"}[g.s.Intn(7)]}
+				return lit(v), v
+			}
 			v := MV{K: mkBig, S: []string{"1234567890123456789012345678901234567890123", "9999999999999999999999999999999999999999999991"}[g.s.Intn(2)]}
 			return lit(v), v
 		case 0:
@@ -906,6 +913,27 @@ func (sr *sessRunner) opSetVal(s *Stream) {
 
 func (sr *sessRunner) opStore(s *Stream) {
 	sr.ops++
+	if len(sessKeys) > len(sessKeysBase) && s.Intn(3) == 0 {
+		// fill the whole key set in order, overwrite one of the keys, read it back
+		sr.hist = append(sr.hist, "STORE-ALL("+strconv.Itoa(len(sessKeys))+" keys)")
+		for i, k := range sessKeys {
+			k, v := k, mNum(int64(i))
+			sr.api("Set("+k+")", func() { sr.r.Set(k, v.toGo(3)) })
+			sr.m.aux[k] = v
+		}
+		sr.rc.probe("store_filled_with_many_keys")
+		k := sessKeys[s.Intn(len(sessKeys))]
+		v := sr.randomValue(s)
+		sr.hist = append(sr.hist, "STORE("+k+","+v.String()+")")
+		sr.api("Set("+k+")", func() { sr.r.Set(k, v.toGo(3)) })
+		sr.m.aux[k] = v
+		var got interface{}
+		sr.api("Get("+k+")", func() { got = sr.r.Get(k) })
+		if !matches(v, got) {
+			sr.violation("fetch equals model", "fetch-differs", "Get("+k+") after the store was filled and the key overwritten = "+implString(got)+", model "+v.String())
+		}
+		return
+	}
 	k := sessKeys[s.Intn(len(sessKeys))]
 	v := sr.randomValue(s)
 	if k == "user" && s.Bool(1, 2) {
@@ -1176,6 +1204,13 @@ type sessSample struct {
 const longName = "customer_shipping_address_postal_region_code_"
 
 func drawNames(s *Stream) {
+	sessKeys = sessKeysBase
+	if s.Intn(4) == 0 { // a store with many keys: more than any small fixed-size fast path holds
+		sessKeys = append([]string{}, sessKeysBase...)
+		for i, n := 0, 4+s.Intn(57); i < n; i++ {
+			sessKeys = append(sessKeys, "key"+strconv.Itoa(i))
+		}
+	}
 	sessNames[0] = []string{"x", "x", "x", "X", "名前", longName + "1"}[s.Intn(6)]
 	sessNames[1] = []string{"y", "y", "X", "Y", "x1", longName + "2"}[s.Intn(6)]
 	if sessNames[1] == sessNames[0] {
